@@ -126,6 +126,8 @@ package vm
 // this very RET (or empty).
 //@ pred detached(v value.Type) bool := snd2(v.ToFunction()) && fst2(v.ToFunction()).Frame != nil ==> len(*fst2(v.ToFunction()).Frame) == 0 || fresh(*fst2(v.ToFunction()).Frame)
 //
+//@ pred arrayDetached(v value.Type) bool := snd2(v.ToArray()) ==> (forall i :: 0 <= i && i < len(fst2(v.ToArray())) ==> detached(fst2(v.ToArray())[i]))
+//
 // The run loop.
 //@ func (*Type).Run [C05,C10,C04,C03,C18,C02,C09,C17,C19]
 //@   checks panic [C05]
@@ -144,6 +146,9 @@ package vm
 //@       && (forall j :: 0 <= j && j < len(*callee_frame) ==> (*callee_frame)[j] == (*f.Frame)[j])
 //@   atcall m.PopClosure() with (callee_m *memory.Type) requires[returned_closure_detached;C04,C03] detached(val)
 //@   atcall m.ResetSP() with (callee_m *memory.Type) requires[returned_closure_detached;C04,C03] detached(val)
+// The same for closures that leave inside a returned array (C04 says "returned directly or inside an
+// array"). This does NOT hold: RET only looks at the returned value itself - an open, listed finding.
+//@   atcall m.PopClosure() with (callee_m *memory.Type) requires[returned_array_closures_detached;C04] arrayDetached(val)
 //
 // C18/C02: a forked context, new or recycled, is a child of the context that forked it and runs on the cloned memory.
 //@   atcall ctxp.children.Put(ctxHash, childCtx) with (callee_val *context) requires[fork_parent;C18,C02] callee_val.parent == ctxp && callee_val.m == m
